@@ -832,7 +832,11 @@ func (ex *Exec) convert(st *State, x Value, from, to types.Type) Value {
 		}
 		if isString(tu) {
 			if !t.IsConst() {
-				unsupported("string(int) of symbolic value")
+				// a symbolic code point that the path condition confines to ASCII is a one-byte string
+				if fw >= 8 && st.decide(c.Ult(t, c.BV(fw, 0x80))) {
+					return ex.mkStr([]*Term{c.Extract(t, 7, 0)}, ex.i64(1))
+				}
+				unsupported("string(int) of symbolic value outside ASCII")
 			}
 			r := rune(signed64(fw, t.V))
 			if fsigned && (signed64(fw, t.V) < 0 || signed64(fw, t.V) > utf8.MaxRune) {
